@@ -108,7 +108,8 @@ def run_build(cli, r, texts, lib_convert, workdir, idx):
     nmatch = r.randint(0, 4)
     names = []
     for i in range(nmatch):
-        nm = "d%d_%s" % (i, r.choice(["a", "fig", "x y", "über"]))
+        # stems with blanks, non-ASCII letters, and dots (two inputs that differ only after a dot must not collide)
+        nm = r.choice(["d%d_a", "d%d_fig", "d%d_x y", "d%d_über", "net.v%d", "fig.1.%d", "a.b.c%d", "d%d."]) % i
         names.append(nm)
         with open(os.path.join(src, nm + ".bob"), "w", encoding="utf-8") as f:
             f.write(texts[i % len(texts)])
